@@ -697,7 +697,7 @@ func c10Instances(add func(*Instance), thorough bool) {
 		if b.p["ak"] == 0 || b.p["ac0"] == 100 || b.p["ac1"] == 100 || b.p["ac0"] == 14 {
 			continue
 		}
-		for rd := 0; rd <= 3; rd++ {
+		for _, rd := range []int{0, 1, 2, 3, 6} { // 6 = FromBase64 of the base64 text of the prefix
 			add(&Instance{Func: "VerifC10Prefix", Tier: b.tier, Params: with(b.p, "L", 7, "eff", 1, "acow", 0, "rd", rd)})
 		}
 	}
